@@ -20,6 +20,7 @@
 #include <opm/io/eclipse/ExtESmry.hpp>
 #include <opm/io/eclipse/OutputStream.hpp>
 
+#include <algorithm>
 #include <csignal>
 #include <cstring>
 #include <new>
@@ -87,28 +88,34 @@ std::string apply_op(const std::string& in, const Json& op, const std::string& d
             const std::string rp = repl[static_cast<size_t>(op.geti("arg")) % 20];
             if (k == "token_drop") b.erase(t.first, t.second); else if (k == "token_replace") b.replace(t.first, t.second, rp); else b.insert(t.first, rp + " ");
         }
-    } else if (k == "num_replace" || k == "rec_drop" || k == "name_replace") {
+    } else if (k == "num_replace" || k == "rec_drop" || k == "name_replace" || k == "snip_num" || k == "snip_name" || k == "snip_rec_drop") {
         // structure-aware: the deck stays syntactically well formed, one value / record / name becomes implausible
         std::vector<std::string> lines; { std::istringstream is(b); std::string l; while (std::getline(is, l)) lines.push_back(l); }
         const size_t sched = [&] { for (size_t q = 0; q < lines.size(); ++q) if (lines[q].rfind("SCHEDULE", 0) == 0) return q; return size_t(0); }();
-        const size_t lo = (op.geti("arg") & 1) ? sched : 0;          // half of them aimed at the SCHEDULE section
-        if (lines.size() > lo + 1) {
-            const size_t o = lo + static_cast<size_t>(f * static_cast<double>(lines.size() - lo - 1));
+        const bool snip = k.rfind("snip_", 0) == 0;                   // aimed at the inserted keyword-family snippets (between the marker comments)
+        const std::string kk = k == "snip_num" ? "num_replace" : k == "snip_name" ? "name_replace" : k == "snip_rec_drop" ? "rec_drop" : k;
+        std::vector<size_t> snip_lines; { bool in = false; for (size_t q = 0; q < lines.size(); ++q) { if (lines[q].rfind("-- SNIP-BEGIN", 0) == 0) in = true; else if (lines[q].rfind("-- SNIP-END", 0) == 0) in = false; else if (in) snip_lines.push_back(q); } }
+        const size_t lo = snip ? 0 : (op.geti("arg") & 1) ? sched : 0;          // half of them aimed at the SCHEDULE section
+        if (snip && snip_lines.empty()) { /* nothing to aim at */ }
+        else if (lines.size() > lo + 1) {
+            const size_t o = snip ? snip_lines[static_cast<size_t>(f * static_cast<double>(snip_lines.size() - 1) + 0.5)] : lo + static_cast<size_t>(f * static_cast<double>(lines.size() - lo - 1));
             auto is_num = [](const std::string& t) { if (t.empty()) return false; char* e = nullptr; std::strtod(t.c_str(), &e); return e && *e == 0; };
             // search forward (wrapping) for a line the operator applies to
             for (size_t d = 0; d < lines.size() - lo; ++d) {
-                std::string& l = lines[lo + (o - lo + d) % (lines.size() - lo)];
+                const size_t li = lo + (o - lo + d) % (lines.size() - lo);
+                if (snip && !std::binary_search(snip_lines.begin(), snip_lines.end(), li)) continue;
+                std::string& l = lines[li];
                 if (l.rfind("--", 0) == 0) continue;
                 std::vector<std::pair<size_t, size_t>> toks; size_t p = 0;
                 while (p < l.size()) { while (p < l.size() && std::isspace(static_cast<unsigned char>(l[p]))) ++p; size_t q = p; while (q < l.size() && !std::isspace(static_cast<unsigned char>(l[q]))) ++q; if (q > p) toks.push_back({p, q - p}); p = q; }
-                if (k == "rec_drop") { if (toks.size() >= 2 && l.substr(toks.back().first, toks.back().second) == "/") { l.clear(); break; } continue; }
+                if (kk == "rec_drop") { if (toks.size() >= 2 && l.substr(toks.back().first, toks.back().second) == "/") { l.clear(); break; } continue; }
                 std::vector<size_t> cand;
-                for (size_t t = 0; t < toks.size(); ++t) { const std::string tk = l.substr(toks[t].first, toks[t].second); if (k == "num_replace" ? is_num(tk) : (tk.size() >= 3 && tk.front() == '\'' && tk.back() == '\'')) cand.push_back(t); }
+                for (size_t t = 0; t < toks.size(); ++t) { const std::string tk = l.substr(toks[t].first, toks[t].second); if (kk == "num_replace" ? is_num(tk) : (tk.size() >= 3 && tk.front() == '\'' && tk.back() == '\'')) cand.push_back(t); }
                 if (cand.empty()) continue;
                 const auto t = toks[cand[static_cast<size_t>(op.geti("arg") / 2) % cand.size()]];
-                static const char* nums[] = {"0", "-1", "1", "2", "1000000", "1e20", "-5", "0.0", "1*", "99", "1e-30", "3"};
+                static const char* nums[] = {"0", "-1", "1", "2", "1000000", "1e20", "-5", "0.0", "1*", "99", "1e-30", "3", "7", "12", "9999"};
                 static const char* names[] = {"'*'", "'NOSUCH'", "''", "'FIELD'", "'?'", "'P*'", "'OPEN'", "'G1'", "'W1'", "'12345678'"};
-                l.replace(t.first, t.second, k == "num_replace" ? nums[static_cast<size_t>(op.geti("arg") / 7) % 12] : names[static_cast<size_t>(op.geti("arg") / 7) % 10]);
+                l.replace(t.first, t.second, kk == "num_replace" ? nums[static_cast<size_t>(op.geti("arg") / 7) % 15] : names[static_cast<size_t>(op.geti("arg") / 7) % 10]);
                 break;
             }
         }
@@ -221,10 +228,62 @@ void write_smry_corpus(Rng& g, bool fmt, bool unif) {
     }
 }
 
+// ---- keyword families beyond the model generator: self-contained snippets inserted into a generated deck before it is damaged.
+// Placeholders: {NX} {NY} {NZ} {N} (cell count) {NXY} {W} (first well) {G} (first group below FIELD, or FIELD)
+struct Snippet { const char* section; const char* text; };
+const std::vector<Snippet>& snippets() {
+    static const std::vector<Snippet> v = {
+        {"GRID", "FAULTS\n 'F1' 1 1 1 {NY} 1 {NZ} 'X' /\n 'F2' 1 {NX} 1 1 1 {NZ} 'Y' /\n/\nMULTFLT\n 'F1' 0.5 /\n 'F2' 0.1 /\n/\n"},
+        {"GRID", "EQUALS\n 'PORO' 0.2 1 {NX} 1 {NY} 1 1 /\n 'PERMX' 50 /\n/\n"},
+        {"GRID", "MULTIPLY\n 'PERMZ' 2.0 1 {NX} 1 {NY} 1 {NZ} /\n/\nCOPY\n 'PERMX' 'PERMY' /\n/\n"},
+        {"GRID", "BOX\n 1 {NX} 1 {NY} 1 1 /\nMULTZ\n {NXY}*0.5 /\nENDBOX\n"},
+        {"GRID", "NNC\n 1 1 1 {NX} {NY} {NZ} 0.5 /\n/\n"},
+        {"GRID", "MINPV\n 0.001 /\nPINCH\n 0.001 'GAP' 1* 'TOPBOT' 'TOP' /\n"},
+        {"GRID", "NTG\n {N}*0.9 /\nMULTX\n {N}*1.5 /\nMULTY-\n {N}*0.7 /\n"},
+        {"GRID", "MAPAXES\n 0 100 0 0 100 0 /\nMAPUNITS\n 'METRES' /\nGRIDUNIT\n 'METRES' /\n"},
+        {"SCHEDULE", "RPTRST\n 'BASIC=3' 'FREQ=2' /\n"},
+        {"SCHEDULE", "RPTRST\n 'BASIC=5' 'FREQ=1' 'ALLPROPS' /\nRPTSCHED\n 'FIP=2' 'WELLS=1' 'RESTART=2' /\n"},
+        {"SCHEDULE", "WLIST\n '*LST1' 'NEW' '{W}' /\n/\nWELOPEN\n '*LST1' 'OPEN' /\n/\n"},
+        {"SCHEDULE", "VFPPROD\n 1 2000 'OIL' 'WCT' 'GOR' 'THP' ' ' '{U}' 'BHP' /\n 1 10 /\n 10 20 /\n 0 0.5 /\n 100 200 /\n 0 /\n 1 1 1 1 50 60 /\n 2 1 1 1 55 65 /\n 1 2 1 1 51 61 /\n 2 2 1 1 56 66 /\n 1 1 2 1 52 62 /\n 2 1 2 1 57 67 /\n 1 2 2 1 53 63 /\n 2 2 2 1 58 68 /\n"},
+        {"SCHEDULE", "VFPINJ\n 2 2000 'WAT' 'THP' '{U}' 'BHP' /\n 1 10 /\n 10 20 /\n 1 100 110 /\n 2 120 130 /\n"},
+        {"SCHEDULE", "GCONINJE\n 'FIELD' 'WATER' 'RATE' 1000 /\n/\nGCONPROD\n '{G}' 'ORAT' 500 3* 'RATE' /\n/\n"},
+        {"SCHEDULE", "LIFTOPT\n 12500 5E-3 0.0 'YES' /\nWLIFTOPT\n '{W}' 'YES' 150000 1.01 1.0 /\n/\nGLIFTOPT\n '{G}' 200000 1* /\n/\n"},
+        {"SCHEDULE", "WRFTPLT\n '{W}' 'YES' 'NO' 'NO' /\n/\nWRFT\n/\n"},
+        {"SCHEDULE", "TUNING\n 1 10 /\n /\n /\nNEXTSTEP\n 0.5 /\nDRSDT\n 0.003 /\n"},
+        {"SCHEDULE", "GUIDERAT\n 0 'OIL' 1 0.5 1 1 0 0 'YES' 0.5 /\nWGRUPCON\n '{W}' 'YES' 0.5 'OIL' /\n/\n"},
+        {"SCHEDULE", "GCONSUMP\n '{G}' 10 /\n/\nGECON\n '{G}' 10 /\n/\n"},
+        {"SCHEDULE", "COMPORD\n '{W}' 'INPUT' /\n/\nWPAVE\n 0.5 1.0 'WELL' 'OPEN' /\nWELPI\n '{W}' 10 /\n/\n"},
+        {"SCHEDULE", "COMPLUMP\n '{W}' 1* 1* 1* 1* 1 /\n/\nWPIMULT\n '{W}' 1.5 /\n/\nCOMPDAT\n '{W}' 1* 1* 1 1 'SHUT' /\n/\n"},
+        {"SCHEDULE", "WTEST\n '{W}' 10 'PE' 3 /\n/\nWECON\n '{W}' 1 1* 0.9 2* 'WELL' /\n/\nWELSPECS\n 'NEWW' '{G}' 1 1 1* 'OIL' /\n/\n"},
+        {"SCHEDULE", "GRUPNET\n 'FIELD' 20 5* /\n/\nWVFPEXP\n '{W}' 'EXP' /\n/\nWTMULT\n '{W}' 'ORAT' 0.5 /\n/\n"},
+    };
+    return v;
+}
+std::string with_snippets(const std::string& deck, const Model& m, const Json& picks) {
+    if (picks.is_null() || picks.size() == 0) return deck;
+    auto fill = [&](std::string t) {
+        auto rep = [&](const std::string& k, const std::string& v) { for (size_t q = t.find(k); q != std::string::npos; q = t.find(k, q + v.size())) t.replace(q, k.size(), v); };
+        std::string grp = "FIELD"; for (auto& g : m.gruptree) if (g.second == "FIELD") { grp = g.first; break; }
+        rep("{NXY}", std::to_string(m.nx * m.ny)); rep("{NX}", std::to_string(m.nx)); rep("{NY}", std::to_string(m.ny)); rep("{NZ}", std::to_string(m.nz)); rep("{N}", std::to_string(m.nx * m.ny * m.nz));
+        rep("{U}", m.units); rep("{W}", m.wells.empty() ? "W" : m.wells[0].name); rep("{G}", grp);
+        return t;
+    };
+    std::string grid, sched;
+    for (size_t k = 0; k < picks.size(); ++k) { const auto& sn = snippets()[static_cast<size_t>(picks[k].as_i()) % snippets().size()]; (std::string(sn.section) == "GRID" ? grid : sched) += "-- SNIP-BEGIN\n" + fill(sn.text) + "-- SNIP-END\n"; }
+    std::string out = deck;
+    if (!grid.empty()) { size_t q = out.find("\nPROPS\n"); if (q != std::string::npos) out.insert(q + 1, grid); }
+    if (!sched.empty()) {
+        size_t s0 = out.find("\nSCHEDULE\n"); size_t q = std::string::npos;
+        if (s0 != std::string::npos) { size_t a = out.find("\nTSTEP\n", s0), b = out.find("\nDATES\n", s0); q = std::min(a, b); }
+        if (q != std::string::npos) out.insert(q + 1, sched); else out += sched;
+    }
+    return out;
+}
+
 struct C20 : Scenario {
     std::string id() const override { return "C20"; }
     std::vector<std::string> shipped;
-    C20() { fs::passthrough(true); for (auto& n : fs::listdir("/repo/tests")) if (n.size() > 5 && n.substr(n.size() - 5) == ".DATA") { std::string t = fs::slurp("/repo/tests/" + n); if (t.size() > 200 && t.size() < 200000 && t.find("INCLUDE") == std::string::npos && t.find("IMPORT") == std::string::npos) shipped.push_back(n); } fs::passthrough(false); }
+    C20() { fs::passthrough(true); for (auto& n : fs::listdir("/repo/tests")) if (n.size() > 5 && n.substr(n.size() - 5) == ".DATA") { std::string t = fs::slurp("/repo/tests/" + n); if (t.size() > 200 && t.size() < 1000000 && t.find("INCLUDE") == std::string::npos && t.find("IMPORT") == std::string::npos) shipped.push_back(n); } fs::passthrough(false); }
     Json describe() override { Json j = Json::object(); j["scenario"] = "S-CORRUPT"; j["real_vs_stub"] = describe_real_vs_stub();
         j["consumers"] = "Parser::parseString -> EclipseState -> Schedule -> SummaryConfig; EclFile (+every array, preload), ERst (+every step/array), ESmry (whole file, vector list, base run, make_esmry_file) / ExtESmry, EGrid + EclipseGrid(file), EInit, ERft";
         j["alloc_cap_bytes"] = static_cast<long long>(kAllocCap); j["cpu_bound_seconds"] = kCpuLimitSeconds; j["shipped_decks"] = static_cast<long long>(shipped.size()); return j; }
@@ -236,17 +295,20 @@ struct C20 : Scenario {
         p["kind"] = kind; p["corpus_seed"] = static_cast<long long>(rng.next() >> 8); p["formatted"] = rng.chance(0.35); p["unified"] = rng.chance(0.6);
         if (kind == "run" || kind == "deck") { GenOpts o; o.max_steps = 3; o.max_actions = 2; o.max_udq = 1; o.esmry = true; o.stop_safe = true; p["model_seed"] = static_cast<long long>(rng.next() >> 8); p["gen"] = o.to_json(); p["physics_seed"] = 5; }
         if (kind == "shipped") p["deck_pick"] = static_cast<long long>(rng.below(1000));
+        if (kind == "deck") { Json sn = Json::array(); int ns = static_cast<int>(rng.below(4)); for (int k = 0; k < ns; ++k) sn.push(static_cast<long long>(rng.below(1000))); p["snippets"] = sn; }
         p["file_pick"] = static_cast<long long>(rng.below(1000));
         Json ops = Json::array(); int no = static_cast<int>(rng.range(1, 4));
         const bool text = kind == "deck" || kind == "shipped";
         static const char* bops[] = {"truncate", "bitflip", "zero_sector", "dup_sector", "drop_sector", "splice_sector", "set_word", "set_count", "set_count", "truncate"};
         static const char* tops[] = {"token_drop", "token_replace", "token_insert", "line_drop", "line_dup", "line_swap", "splice_text", "bitflip", "truncate", "token_replace",
                                      "num_replace", "num_replace", "num_replace", "rec_drop", "rec_drop", "name_replace", "name_replace", "num_replace"};
-        for (int k = 0; k < no; ++k) { Json o = Json::object(); o["kind"] = text ? tops[rng.below(18)] : bops[rng.below(10)]; o["pos"] = rng.unit(); o["arg"] = static_cast<long long>(rng.below(100000)); ops.push(o); }
+        static const char* sops[] = {"snip_num", "snip_num", "snip_num", "snip_name", "snip_rec_drop"};
+        const bool has_snips = p.has("snippets") && p.at("snippets").size() > 0;
+        for (int k = 0; k < no; ++k) { Json o = Json::object(); o["kind"] = text ? (has_snips && rng.chance(0.5) ? sops[rng.below(5)] : tops[rng.below(18)]) : bops[rng.below(10)]; o["pos"] = rng.unit(); o["arg"] = static_cast<long long>(rng.below(100000)); ops.push(o); }
         p["ops"] = ops;
         return p;
     }
-    std::vector<Json> shrink(const Json& plan) override { std::vector<Json> out; shrink_array(plan, "ops", out, 0); return out; }
+    std::vector<Json> shrink(const Json& plan) override { std::vector<Json> out; shrink_array(plan, "ops", out, 0); if (plan.has("snippets")) shrink_array(plan, "snippets", out, 0); return out; }
 
     RunResult execute(const Json& plan) override {
         RunResult r;
@@ -263,7 +325,7 @@ struct C20 : Scenario {
         try {
             if (kind == "deck" || kind == "shipped") {
                 std::string text, donor;
-                if (kind == "deck") { Model m = generate_model(static_cast<std::uint64_t>(plan.geti("model_seed")), GenOpts::from_json(plan.at("gen"))); text = deck_text(m); donor = text; }
+                if (kind == "deck") { Model m = generate_model(static_cast<std::uint64_t>(plan.geti("model_seed")), GenOpts::from_json(plan.at("gen"))); text = with_snippets(deck_text(m), m, plan.has("snippets") ? plan.at("snippets") : Json()); donor = text; r.counters["snippets_inserted"] += plan.has("snippets") ? static_cast<long>(plan.at("snippets").size()) : 0; }
                 else { fs::passthrough(true); const std::string n = shipped.empty() ? "" : shipped[static_cast<size_t>(plan.geti("deck_pick")) % shipped.size()]; text = n.empty() ? "RUNSPEC\n" : fs::slurp("/repo/tests/" + n); donor = shipped.size() > 1 ? fs::slurp("/repo/tests/" + shipped[(static_cast<size_t>(plan.geti("deck_pick")) + 7) % shipped.size()]) : text; fs::passthrough(false); sample["deck"] = n; }
                 for (size_t k = 0; k < plan.at("ops").size(); ++k) text = apply_op(text, plan.at("ops")[k], donor);
                 sh.str("deck"); victim_class = "DECK";
